@@ -195,6 +195,10 @@ def run_case(case):
                     V("terminates", "configuration variant %d did not terminate" % pi)
                     continue
                 if res.rc != 0:
+                    # the same tree and selection under another performance configuration: it has to deliver a partition too
+                    V("config-variant-succeeds", "hash=%s kind=%s knobs=%s prefix=%s suffix=%s cache=%s exits %s where the reference run succeeds: %s" % (
+                        c2["hash_fn"], c2["kind"], c2["knobs"], c2["max_prefix_size"], c2["max_suffix_size"], c2["cache"], res.rc,
+                        res.err.decode("utf-8", "replace")[-300:]))
                     continue
                 part = report.parse_json(res.out).pathsets()
                 if part != refpart:
